@@ -57,6 +57,24 @@ def obligations(prop="C20"):
     ok = isinstance(last, ast.If) and "isinstance(self, FortranSourceFile)" in ast.unparse(last.test) and any(isinstance(s, ast.Raise) for s in last.body)
     out.append(OR(id=f"{prop}.S.FortranContainer.__init__.eof_inside_container_raises", status=PROVED if ok else REFUTED, kind="S", role="post", backend="ast",
                   target="ford.sourceform.FortranContainer.__init__", desc="when the source runs out inside any container other than the file itself an exception is raised"))
+    # 3b. an END at nesting level 0 rejects the file: the END branch reaches self._cleanup(), which for a source file is the base class's raising stub
+    end_branch = [n for n in ast.walk(ci) if isinstance(n, ast.If) and "self.END_RE.match(line)" in ast.unparse(n.test)]
+    calls_cleanup = bool(end_branch) and any(isinstance(x, ast.Call) and ast.unparse(x.func) == "self._cleanup" for b in end_branch[0].body for x in ast.walk(b))
+    sf = loader.import_repo("ford.sourceform")
+    impl = sf.FortranSourceFile._cleanup
+    owner = impl.__qualname__.rsplit(".", 1)[0]
+    try:
+        body = loader.find_def("ford.sourceform", impl.__qualname__).body
+        body = [b for b in body if not (isinstance(b, ast.Expr) and isinstance(b.value, ast.Constant))]
+        stub_raises = len(body) >= 1 and isinstance(body[0], ast.Raise)
+    except Exception:
+        stub_raises = False
+    ok = calls_cleanup and stub_raises
+    out.append(OR(id=f"{prop}.S.FortranSourceFile.end_at_file_level_raises", status=PROVED if ok else REFUTED, kind="S", role="post", backend="ast+mro",
+                  target="ford.sourceform.FortranContainer.__init__ / FortranSourceFile._cleanup",
+                  desc="an END statement at nesting level 0 of a file ends in self._cleanup(), which the method resolution order of FortranSourceFile maps to a stub that raises: "
+                       "the file is rejected instead of being accepted with the text before the END",
+                  witness=None if ok else {"END branch calls self._cleanup()": calls_cleanup, "FortranSourceFile._cleanup resolves to": impl.__qualname__, "which raises first": stub_raises}))
     # 4. reader errors name the offending line
     nx = loader.find_def("ford.reader", "FortranReader.__next__")
     raises = [n for n in ast.walk(nx) if isinstance(n, ast.Raise) and n.exc is not None]
@@ -64,3 +82,39 @@ def obligations(prop="C20"):
     out.append(OR(id=f"{prop}.S.FortranReader.__next__.errors_quote_the_line", status=PROVED if raises and len(named) == len(raises) else REFUTED, kind="S", role="post", backend="ast",
                   target="ford.reader.FortranReader.__next__", desc=f"each of the {len(raises)} error exits of the reader quotes the offending line"))
     return out
+
+
+# ------------------------------------------------------------------ the per-file handler itself (Engine A block contract)
+def handler_block(prop="C20"):
+    """the body of `except Exception as e:` in Project.__init__: with dbg on (the default) it reports and moves on to the next file for EVERY exception object,
+    whatever its args; with dbg off it re-raises that same exception"""
+    import ast
+    import z3
+    from pyvc.contract import Contract, TRef, TStr, TOpaque
+    from pyvc.values import SNone
+    from contracts.display import base, H, sel
+    from harness.loader import TargetMissing
+    c = base(Contract("ford.fortran_project", "Project.__init__", prop))
+    c.qual_suffix = "per_file_handler"
+
+    def select(fn):
+        hits = [h for n in ast.walk(fn) if isinstance(n, ast.Try) for h in n.handlers
+                if any(isinstance(x, ast.Call) and ast.unparse(x.func) == "self._fortran_file" for b in n.body for x in ast.walk(b))]
+        if len(hits) != 1:
+            raise TargetMissing(f"per-file try statement: {len(hits)} handlers")
+        if hits[0].name != "e":
+            raise TargetMissing("handler does not bind the exception to `e`")
+        return hits[0].body
+    c.block_select = select
+    c.dropped.append("block contract: the body of the handler of the per-file try statement in Project.__init__")
+    c.fields.update({"args": "list:str", "dbg": "bool"})
+    c.param("e", TRef("Exception"))
+    c.param("settings", TRef("ProjectSettings"))
+    c.param("relative_path", TStr())
+    c.check_message_args = True        # building the diagnostic must not raise (e.args may be empty)
+    c.assumed.append("an exception object's args is a tuple of any length (modelled as a list of display strings); warn() returns")
+    dbg = lambda v: sel(H(v, "dbg"), v.settings)
+    c.on_continue = [("only_with_dbg_on", lambda v0, v1: dbg(v0))]
+    c.raises("only_with_dbg_off_and_then_the_original_exception", lambda v0, exc, v1: z3.And(z3.Not(dbg(v0)), z3.BoolVal(exc == "e")))
+    c.allowed_raises = {"e"}
+    return c
